@@ -2,38 +2,31 @@ package main
 
 import (
 	"fmt"
+	"time"
 
-	banktypes "github.com/cosmos/cosmos-sdk/x/bank/types"
+	sdk "github.com/cosmos/cosmos-sdk/types"
+	sdkvesting "github.com/cosmos/cosmos-sdk/x/auth/vesting/types"
 
 	e "haqqsim/engine"
+
+	liquidvestingtypes "github.com/haqq-network/haqq/x/liquidvesting/types"
+	vestingtypes "github.com/haqq-network/haqq/x/vesting/types"
 )
 
 func main() {
 	cfg := e.DefaultConfig()
-	cfg.Replicas = 2
 	w, err := e.NewWorld(cfg)
 	if err != nil {
 		panic(err)
 	}
-	send := func() {
-		a, b := w.Acct(2), w.Acct(3)
-		bz, _ := w.BuildCosmosTx(a, e.TxOpts{}, banktypes.NewMsgSend(a.Acc, b.Acc, e.Native(e.BigS("5"))))
-		res := w.DeliverTx(bz)
-		fmt.Printf("  h=%d code=%d gasUsed=%d diverge=%v\n", w.Height, res.Code, res.GasUsed, w.Diverge)
-		w.Diverge = nil
-	}
-	send()
+	a, b := w.Acct(2), w.Acct(7)
+	amt := e.Native(e.BigS("5000000000000000000000"))
+	lock := sdkvesting.Periods{{Length: 1000, Amount: amt}}
+	res, err := w.DoCosmos(a, e.TxOpts{}, vestingtypes.NewMsgCreateClawbackVestingAccount(a.Acc, b.Acc, time.Unix(w.Now.Unix(), 0), lock, nil, false))
+	fmt.Println("create", res.Code, res.Log, err)
 	st := e.BlkStep(1000, nil)
 	w.MustBlk(&st)
-	send()
-	// restart replica 1 mid block
-	fmt.Println("restart r1")
-	if v, err := w.Restart(1); v != nil || err != nil {
-		panic(fmt.Sprint(v, err))
-	}
-	send()
-	send()
-	w.MustBlk(&st)
-	send()
-	send()
+	res, err = w.DoCosmos(a, e.TxOpts{}, sdk.Msg(nil))
+	res, err = w.DoCosmos(b, e.TxOpts{}, liquidvestingtypes.NewMsgLiquidate(b.Acc, b.Acc, e.C(e.Denom, e.BigS("1000000000000000000000"))))
+	fmt.Println("liquidate", res.Code, res.Log, res.GasUsed, err)
 }
